@@ -279,6 +279,8 @@ class Verifier:
 
     def run_path(self, contract, fv, sname, builder, ctx, sink, results, info, check_vacuity):
         b = SymBuilder(ctx, self.world)
+        if getattr(contract, "assume_nonzero_divisors", False):
+            ctx.ghost["assume_nonzero_divisors"] = True
         call = builder(b)
         args = [b.conv(a) for a in call.get("args", [])]
         kwargs = {k: b.conv(v) for k, v in call.get("kwargs", {}).items()}
@@ -354,7 +356,13 @@ class Verifier:
         path = list(ctx.decisions)
         if exit_kind == "normal":
             for lab, e in contract.ensures_:
-                v = self.eval_spec(ctx, sfr, parsed[("ensures", lab)])
+                try:
+                    v = self.eval_spec(ctx, sfr, parsed[("ensures", lab)])
+                except PyRaise as ex:
+                    r = self.discharge(ctx, f"{sname}/{lab}", False, path)
+                    r.detail = f"the clause itself raised {ex.exc.tname}{ex.exc.args!r} on this exit (post-state outside the shape the clause describes)"
+                    results.append(r)
+                    continue
                 results.append(self.discharge(ctx, f"{sname}/{lab}", v, path))
             for lab, pexpr in contract.fresh_result_:
                 node, _ = parse_clause(pexpr)
